@@ -188,3 +188,33 @@ class SimProcessPool(SimPoolBase):
 
     def _ship_result(self, value):
         return pickle.loads(pickle.dumps(value, protocol=pickle.HIGHEST_PROTOCOL))
+
+
+def sim_as_completed(fs, timeout=None):
+    """Stand-in for concurrent.futures.as_completed over SimFutures: yields the
+    futures in the order in which the simulated tasks finish."""
+    pending = list(fs)
+    order = []
+    while pending:
+        sim = pending[0].sim
+        sim.block_until(lambda: any(f.done() for f in pending), "as_completed")
+        done = [f for f in pending if f.done()]
+        # several may have finished since the last look: completion order
+        done.sort(key=lambda f: f.pool.stats["completion_order"].index(f.seq)
+                  if f.seq in f.pool.stats["completion_order"] else -1)
+        for f in done:
+            pending.remove(f)
+            order.append(f)
+            yield f
+
+
+def sim_wait(fs, timeout=None, return_when="ALL_COMPLETED"):
+    fs = list(fs)
+    if not fs:
+        return set(), set()
+    sim = fs[0].sim
+    if return_when == "FIRST_COMPLETED":
+        sim.block_until(lambda: any(f.done() for f in fs), "wait")
+    else:
+        sim.block_until(lambda: all(f.done() for f in fs), "wait")
+    return {f for f in fs if f.done()}, {f for f in fs if not f.done()}
